@@ -179,6 +179,45 @@ fn make_task<'a>(
                 }
             }))
         }
+        // A register read that is given up as soon as the task is woken again (the response has arrived and
+        // sits in the slot, or the deadline passed) without being looked at, followed by a normal read.
+        "register_read_cancel" => {
+            let (g, i) = locate(device)?;
+            let reg = get_u64(spec, "reg", 0x0130) as u16;
+            let group = &groups[g];
+            Ok(Box::pin(async move {
+                let Ok(sd) = group.subdevice(md, i) else { return };
+                for _ in 0..count {
+                    let mut fut = Box::pin(sd.register_read::<u16>(reg));
+                    let mut polls = 0;
+                    let early = std::future::poll_fn(|cx| {
+                        polls += 1;
+                        if polls == 1 {
+                            match fut.as_mut().poll(cx) {
+                                std::task::Poll::Ready(r) => std::task::Poll::Ready(Some(r)),
+                                std::task::Poll::Pending => std::task::Poll::Pending,
+                            }
+                        } else {
+                            std::task::Poll::Ready(None)
+                        }
+                    })
+                    .await;
+                    drop(fut);
+                    // an operation that ended at its first poll (no frame slot) has a result like any other
+                    let v = match early {
+                        None => json!({"r": "cancelled", "bytes": []}),
+                        Some(Ok(v)) => json!({"r": "ok", "bytes": bytes(&v.to_le_bytes())}),
+                        Some(Err(e)) => json!({"r": err_str(&e), "detail": format!("{e:?}"), "bytes": []}),
+                    };
+                    push(&results, t, v);
+                    let v = match sd.register_read::<u16>(reg).await {
+                        Ok(v) => json!({"r": "ok", "bytes": bytes(&v.to_le_bytes())}),
+                        Err(e) => json!({"r": err_str(&e), "detail": format!("{e:?}"), "bytes": []}),
+                    };
+                    push(&results, t, v);
+                }
+            }))
+        }
         "sdo_read" => {
             let (g, i) = locate(device)?;
             let index = get_u64(spec, "index", 0x2000) as u16;
